@@ -6,6 +6,7 @@
 -/
 import ApiFu.C12.Model
 import ApiFu.C06.Spec
+import ApiFu.C06.Complete
 import Std.Data.String.ToNat
 
 namespace ApiFu.C12
@@ -253,5 +254,54 @@ theorem wf_chainFrags (nm : Nat → String) (hon : ∀ i, nm i ≠ "on") : ∀ k
 /-- The chain document is in the grammar. -/
 theorem wf_chainDoc (nm : Nat → String) (hon : ∀ i, nm i ≠ "on") (n : Nat) : wfDocument (chainDoc nm n) = true := by
   simp [wfDocument, chainDoc, wfDefs, wfDefinition, wfSelSet, wfSels, wfSelection, spreadOf, wfDirs, hon, wf_chainFrags nm hon]
+
+/-! ### Production depth: sibling lists contribute a maximum -/
+
+theorem pdSels_append (a b : List Selection) : pdSels (a ++ b) = max (pdSels a) (pdSels b) := by
+  induction a with
+  | nil => simp [pdSels_nil]
+  | cons s a ih => simp only [List.cons_append, pdSels_cons, ih]; omega
+
+theorem pdValues_append (a b : List Value) : pdValues (a ++ b) = max (pdValues a) (pdValues b) := by
+  induction a with
+  | nil => simp [pdValues]
+  | cons s a ih => simp only [List.cons_append, pdValues, ih]; omega
+
+theorem pdArgList_append (a b : List Argument) : pdArgList (a ++ b) = max (pdArgList a) (pdArgList b) := by
+  induction a with
+  | nil => simp [pdArgList]
+  | cons s a ih => simp only [List.cons_append, pdArgList, ih]; omega
+
+theorem pdDirList_append (a b : List Directive) : pdDirList (a ++ b) = max (pdDirList a) (pdDirList b) := by
+  induction a with
+  | nil => simp [pdDirList]
+  | cons s a ih => simp only [List.cons_append, pdDirList, ih]; omega
+
+theorem pdVarDefList_append (a b : List VarDef) : pdVarDefList (a ++ b) = max (pdVarDefList a) (pdVarDefList b) := by
+  induction a with
+  | nil => simp [pdVarDefList]
+  | cons s a ih => simp only [List.cons_append, pdVarDefList, ih]; omega
+
+theorem pdDefs_append (a b : List Definition) : pdDefs (a ++ b) = max (pdDefs a) (pdDefs b) := by
+  induction a with
+  | nil => simp [pdDefs]
+  | cons s a ih => simp only [List.cons_append, pdDefs, ih]; omega
+
+theorem pdSels_le {k : Nat} : ∀ (sels : List Selection), (∀ s ∈ sels, pdSelection s ≤ k) → pdSels sels ≤ k
+  | [], _ => by simp [pdSels_nil]
+  | s :: ss, h => by
+    rw [pdSels_cons]
+    have h1 := h s (by simp)
+    have h2 := pdSels_le ss (fun x hx => h x (by simp [hx]))
+    omega
+
+theorem pdDefs_le {k : Nat} : ∀ (ds : List Definition), (∀ d ∈ ds, pdDefinition d ≤ k) → pdDefs ds ≤ k
+  | [], _ => by simp [pdDefs]
+  | d :: ds, h => by
+    simp only [pdDefs]
+    have h1 := h d (by simp)
+    have h2 := pdDefs_le ds (fun x hx => h x (by simp [hx]))
+    omega
+
 
 end ApiFu.C12
